@@ -7,7 +7,7 @@ use serde_json::json;
 
 use crate::{
     app::ReadMode,
-    explore::{self, deadline, e2, fates_of, guarded, Devs, RunOut, FATE_ALTS},
+    explore::{self, deadline, e2, fates_of, guarded, Devs, RunOut, FATE_ALTS, FATE_ALTS3},
     report::{Args, Report, Tier, Violation},
     scen::{self, cfg_by_name, completion, diagnose, drive, integrity, std_pair_pre, Op, Wl},
     sim::{PairCfg, CLIENT, SERVER},
@@ -98,10 +98,10 @@ pub struct Out {
     pub viol: Vec<(String, String)>,
 }
 
-pub fn run_case(base: Instant, c: &Case, devs: &Devs) -> Out {
+pub fn run_case(base: Instant, c: &Case, devs: &Devs, alts: &[crate::sim::Fate]) -> Out {
     let r = guarded(|| {
         let mut p = std_pair_pre(base, &c.cfg, c.wl, c.read, |w| {
-            w.fates = fates_of(devs, &FATE_ALTS);
+            w.fates = fates_of(devs, alts);
             w.keep_data = false;
         });
         let done = drive(&mut p, &c.script, 80_000, Duration::from_secs(900));
@@ -140,7 +140,8 @@ fn replay(path: &std::path::Path) -> ! {
     let c = all.iter().find(|c| c.name == name).unwrap_or_else(|| crate::report::machinery("unknown case"));
     let devs: Devs = r["devs"].as_array().map(|d| d.iter().map(|x| (x[0].as_u64().unwrap(), x[1].as_u64().unwrap() as u16)).collect()).unwrap_or_default();
     let base = Instant::now();
-    let mut p = std_pair_pre(base, &c.cfg, c.wl, c.read, |w| w.fates = fates_of(&devs, &FATE_ALTS));
+    let alts: &[crate::sim::Fate] = if r["alts_len"].as_u64() == Some(3) { &FATE_ALTS3 } else { &FATE_ALTS };
+    let mut p = std_pair_pre(base, &c.cfg, c.wl, c.read, |w| w.fates = fates_of(&devs, alts));
     let done = drive(&mut p, &c.script, 80_000, Duration::from_secs(900));
     print!("{}", crate::trace::dump(&p.w));
     println!("done={done} integrity={:?} completion={:?}", integrity(&p), completion(&p));
@@ -150,6 +151,11 @@ fn replay(path: &std::path::Path) -> ! {
 
 pub fn main(args: &Args) -> ! {
     if let Some(p) = &args.replay {
+        let v: serde_json::Value = serde_json::from_str(&std::fs::read_to_string(p).unwrap_or_default()).unwrap_or_default();
+        if let Some(out) = crate::checks::replay_comp(&v) {
+            println!("{out}");
+            std::process::exit(0)
+        }
         replay(p);
     }
     explore::quiet_panics();
@@ -157,20 +163,28 @@ pub fn main(args: &Args) -> ! {
     let mut rep = Report::new("C01", args, "model_checking");
     let thorough = args.tier == Tier::Thorough;
     let k = if thorough { 3 } else { 2 };
-    let dl = deadline(if thorough { 1500 } else { 40 });
-    let cs = cases(thorough);
-    rep.rule = format!("E2: for each case (configuration / workload / reader mode / fault window / scripted aux operation) every execution with at most k={k} deviations from default delivery, over the fate alphabet {:?} applied to the datagrams whose global emission index lies in the window, is run on real client and server endpoints; the integrity oracle inspects every chunk either application obtains. E1 (component level, merged below) explores Assembler / SendBuffer / RangeSet / Dedup against reference models. Non-trivial = observable trace hash differs from the case's deviation-free baseline; distinct = distinct trace hashes.", FATE_ALTS);
+    let alts: &[crate::sim::Fate] = if thorough { &FATE_ALTS } else { &FATE_ALTS3 };
+    // component-level searches first (their own budget), then whole connections
+    crate::checks::merge_comp(&mut rep, "C01", thorough, deadline(if thorough { 600 } else { 20 }));
+    let dl = deadline(if thorough { 1500 } else { 28 });
+    let mut cs = cases(thorough);
+    if !thorough {
+        for c in cs.iter_mut() {
+            c.window.1 = c.window.0 + 18;
+        }
+    }
+    rep.rule = format!("E2: for each case (configuration / workload / reader mode / fault window / scripted aux operation) every execution with at most k={k} deviations from default delivery, over the fate alphabet {:?} (quick: drop / dup 15 ms / delay 40 ms) applied to the datagrams whose global emission index lies in the window, is run on real client and server endpoints; the integrity oracle inspects every chunk either application obtains. E1 (component level, merged below) explores Assembler / SendBuffer / RangeSet / Dedup against reference models. Non-trivial = observable trace hash differs from the case's deviation-free baseline; distinct = distinct trace hashes.", FATE_ALTS);
     let mut total = 0u64;
     let mut capped_any = false;
     let mut per_case = vec![];
     for c in &cs {
         let r = e2(
             |d: &Devs| {
-                let o = run_case(base, c, d);
+                let o = run_case(base, c, d, alts);
                 RunOut { points: o.points, trace: o.trace, violation: o.viol.first().cloned(), note: 0 }
             },
             c.window,
-            FATE_ALTS.len() as u16,
+            alts.len() as u16,
             k,
             dl,
         );
@@ -188,7 +202,7 @@ pub fn main(args: &Args) -> ! {
                 rep.violation(Violation {
                     signature: format!("{sig}:{}", c.cfg.client.name),
                     what: format!("case={} deviations={d:?}: {what}", c.name),
-                    replay: json!({"check":"c01","case":c.name,"devs":d}),
+                    replay: json!({"check":"c01","case":c.name,"devs":d,"alts_len":alts.len()}),
                 });
             }
         }
@@ -200,9 +214,8 @@ pub fn main(args: &Args) -> ! {
     rep.exhaustive = !capped_any;
     rep.part("e2_whole_connection", json!({"k": k, "cases": cs.len(), "executions": total, "capped": capped_any, "per_case": per_case}));
     rep.sample(json!({"case": cs[0].name, "deviations": [[3,0],[9,2]], "meaning": "datagram #3 dropped and datagram #9 delayed by 15 ms; everything else delivered FIFO after the link latency"}));
-    rep.states = rep.distinct.len() as u64;
-    rep.transitions = total;
-    crate::checks::merge_comp(&mut rep, "C01", thorough, dl);
+    rep.states += rep.distinct.len() as u64;
+    rep.transitions += total;
     rep.assumptions = vec![
         "stream payload is a fixed pattern of (stream id, offset); content-dependent bugs are out of scope".into(),
         "at most k deviations per execution, inside the stated windows; streams <= 60 kB".into(),
